@@ -98,7 +98,10 @@ MatchPlain(x, o) == IF "rej" \in DOMAIN x
                     THEN "exc" \in DOMAIN o /\ \E i \in DOMAIN x.rej : (x.rej[i] = o.exc \/ x.rej[i] = "*")
                     ELSE x = o
 \*   x = [any |-> TRUE]        : unjudged - every outcome is acceptable
+\*   x = [okorrej |-> <<f1,..>>]: any object, or a refusal from the listed families
 Matches(x, o) == IF "any" \in DOMAIN x THEN TRUE
+                 ELSE IF "okorrej" \in DOMAIN x
+                 THEN ("exc" \notin DOMAIN o) \/ (\E i \in DOMAIN x.okorrej : x.okorrej[i] = o.exc)
                  ELSE IF "anyof" \in DOMAIN x
                  THEN \E i \in DOMAIN x.anyof : MatchPlain(x.anyof[i], o)
                  ELSE MatchPlain(x, o)
